@@ -4,7 +4,7 @@
 From Coq Require Import ZArith Bool String.
 From Coq Require Import List.
 Import ListNotations.
-Require Import MV.C04.Gen MV.C04.Model MV.C04.Geo MV.C04.Stl MV.C04.Ref MV.C04.Run MV.C04.Proofs.
+Require Import MV.C04.Gen MV.C04.Model MV.C04.Geo MV.C04.Stl MV.C04.Ref MV.C04.GeoRef MV.C04.Run MV.C04.Proofs.
 Open Scope Z_scope.
 
 Theorem C04_roundtrip_xyz : forall (F Ftxt Cx Ctxt : Type) (pf : F -> Ftxt) (rf : Ftxt -> F) (f_of_int : Z -> F),
@@ -108,6 +108,17 @@ Theorem C04_interop_medit : forall (F Ftxt Cx Ctxt : Type) (pf : F -> Ftxt) (rf 
                (filter (len_is 3) (mF m) ++ filter (len_is 4) (mF m)) (filter (len_is 4) (mC m) ++ filter (len_is 8) (mC m))).
 Proof. intros F Ftxt Cx Ctxt pf rf f_of_int H m. split; [intros L HL; now apply (medit_ref_reads F Ftxt Cx Ctxt pf rf f_of_int H m L) | now apply medit_loads_ref]. Qed.
 Print Assumptions C04_interop_medit.
+
+(* ---- geogram_ascii read by an independent, count-driven reader (GeoRef.v: it reads the number of values the declared
+   sizes announce and never looks for the next chunk header, as geogram does): it finds exactly the attribute sets and
+   attributes mouette wrote, each attribute with all its values.  geo_sizes_ok: every attribute holds size * arity values.
+   PARTIAL: the converse direction (files of an independent geogram writer, and a file written by geogram itself) is
+   compared per run with the model's parser, not proved. *)
+Theorem C04_interop_geogram_partial : forall (F Ftxt Cx Ctxt : Type) (pf : F -> Ftxt) (pc : Cx -> Ctxt) (m : mesh F Cx),
+  @geo_sizes_ok F Cx m ->
+  @ref_read_geo Ftxt Ctxt (@print_geo F Ftxt Cx Ctxt pf pc m) = Some (@items_of Ftxt Ctxt (tl (@geo_chunks F Ftxt Cx Ctxt pf pc m))).
+Proof. exact geo_ref_reads. Qed.
+Print Assumptions C04_interop_geogram_partial.
 
 (* ---- binary STL (partial: triangle meshes; the importer is the third-party stl_reader, compared by the driver).
    to32 is struct.pack('f'): rounding to binary32.  Full statement wanted: load (save m) = soup of m for every mesh;
